@@ -346,6 +346,13 @@ pub fn dangerous(region: &str) -> Vec<(String, Vec<u8>)> {
         v.push(("newch-delete3".into(), vec![0x07, 3, 0, 0, 0, 0x50]));
         v.push(("newch-delete0".into(), vec![0x07, 0, 0, 0, 0, 0x50]));
         v.push(("dlch-0".into(), vec![0x0A, 0, mid[0], mid[1], mid[2]]));
+        // channel indices at the boundaries of the selection's draw width (9th and 16th slot), and masks that
+        // leave only such a channel usable
+        let hi = cmds::freq_bytes(f[3] + 200_000);
+        v.push(("newch-create8".into(), vec![0x07, 8, hi[0], hi[1], hi[2], 0x50]));
+        v.push(("newch-create15".into(), vec![0x07, 15, hi[0], hi[1], hi[2], 0x50]));
+        v.push(("adr-ch8-only".into(), cmds::link_adr(15, 15, 0x0100, 0, 1, false).bytes));
+        v.push(("adr-ch15-only".into(), cmds::link_adr(15, 15, 0x8000, 0, 1, false).bytes));
     }
     v.push(("rxparam".into(), {
         let fb = cmds::freq_bytes(f[7]);
@@ -540,7 +547,7 @@ pub fn run(tier: Tier, replay: Option<&str>) {
     }
     let ctx = Ctx::new("C04", tier);
     let th = tier.thorough();
-    let regions: Vec<&str> = if th { REGIONS.to_vec() } else { vec!["EU868", "US915", "AS923_1"] };
+    let regions: Vec<&str> = if th { REGIONS.to_vec() } else { vec!["EU868", "US915", "AS923_1", "AU915", "IN865"] };
     let seen: Mutex<HashSet<u64>> = Mutex::new(HashSet::new());
     let followups = AtomicU64::new(0);
     let cases_a = AtomicU64::new(0);
@@ -628,7 +635,7 @@ pub fn run(tier: Tier, replay: Option<&str>) {
         }
     }
     // ---- Layer B
-    let depth = if th { 6 } else { 4 };
+    let depth = if th { 6 } else { 5 };
     let mut states = 0u64;
     let mut transitions = 0u64;
     let mut capped = false;
